@@ -7,6 +7,9 @@ handed to the real `InsertChain` is replayed through `Sync.insertChain`.
   sync-new <fid> <genesisHash>                                              (no observation)
   sync-insert <fid> <kind> <k> <height>:<hash>:<prev>:<valid> × k           | <index> <outcome> <frontierHeight> <hash,hash,…>
 (`kind` is the generator's label of the batch; the model does not look at it.)
+`outcome` ∈ ok | link | toofar | notlonger | verify | panic. The model never answers `panic` (C16.insert_total): an
+empty batch is `0 ok`, a batch whose first unknown momentum names a height the node does not hold is `0 link`
+(264f72a); a `panic` observed by the harness is therefore always a DIFF.
 Hashes are 16 hex digits (the first 8 bytes). `valid` is 1 when the delivered momentum and its account
 blocks are the producer's own bytes, 0 when the harness corrupted them.
 -/
